@@ -331,6 +331,9 @@ func main() {
 		}
 	}
 	ctx.Extra["not_compared_out_of_domain"] = ignored
+	for _, d := range ctx.Direct {
+		report(d.Sig, d.What, d, "")
+	}
 	if violations == 0 && len(fidelity) > 0 {
 		n := len(fidelity)
 		if n > 5 {
@@ -338,9 +341,6 @@ func main() {
 		}
 		report("", "the correspondence between the model and the implementation no longer checks (the theorems are about the model, so the property is no longer shown for this code); no input was found on which the implementation contradicts the property",
 			map[string]interface{}{"broken_correspondence": fidelity, "count": n, "searched": fmt.Sprintf("%d generated cases", evals)}, " no-failing-input-found")
-	}
-	for _, d := range ctx.Direct {
-		report(d.Sig, d.What, d, "")
 	}
 	if brokenWhy != "" && violations == 0 {
 		report("", brokenWhy, map[string]interface{}{"no_longer_checks": propFile, "reason": brokenWhy,
